@@ -239,7 +239,7 @@ def _method_parity(prog, ci, name, known):
 
 def _ramberg(ctx):
     prog = ctx.prog
-    ctx.rule("R-C16-7", floor=7, what="Ramberg-Osgood: derivative, reciprocal, positivity, oddness, Masing doubling, hysteresis closure")
+    ctx.rule("R-C16-7", floor=8, what="Ramberg-Osgood: derivative, reciprocal, positivity, oddness, Masing doubling, hysteresis closure")
     ci = prog.cls(RO)
     ex = MethodNF(prog)
     s = RF.sym("s")
@@ -269,6 +269,26 @@ def _ramberg(ctx):
             ex.call(ci, "strain", [m]))
     except NFUnsupported as e:
         raise AnalysisError("Ramberg-Osgood outside the normal-form fragment: %s" % e)
+    # the closure identity needs the branch to be defined AT the reversal point: the raising guard must be strict
+    f = prog.lookup_method(ci, "lower_hysteresis")
+    guards = [x for x in f.node.body if isinstance(x, ast.If) and x.body and isinstance(x.body[-1], ast.Raise)]
+    for gd in guards:
+        cmp_ = [n for n in ast.walk(gd.test) if isinstance(n, ast.Compare) and len(n.ops) == 1]
+        ps = [q for q in f.params if q != "self"]
+        rel = [c_ for c_ in cmp_ if {norm_text(c_.left), norm_text(c_.comparators[0])} == set(ps[:2])]
+        if not rel:
+            raise AnalysisError("lower_hysteresis: raising guard does not compare stress with max_stress")
+        c_ = rel[0]
+        a_is_stress = norm_text(c_.left) == ps[0]
+        op = type(c_.ops[0])
+        excludes_equal = op in (ast.GtE, ast.LtE, ast.Eq)
+        above = (op in (ast.Gt, ast.GtE)) == a_is_stress
+        if excludes_equal or not above:
+            ctx.violated(f, gd, "lower_hysteresis rejects %s: the branch cannot be evaluated at the reversal point stress == "
+                         "max_stress, where it has to meet the cyclic curve (a loop traced from s_max raises)" % norm_text(c_),
+                         rule="R-C16-7", text="guard " + norm_text(c_))
+        else:
+            ctx.holds(f, gd, "lower_hysteresis only rejects stress > max_stress: defined at the reversal point", rule="R-C16-7")
     # delta_stress mirrored
     f = prog.lookup_method(ci, "delta_stress")
     r = [x for x in f.node.body if isinstance(x, ast.Return)][-1]
@@ -393,8 +413,24 @@ def _true(ctx):
     for name, ref in table.items():
         f = prog.func(T + name)
         r = [s for s in f.node.body if isinstance(s, ast.Return)][-1]
+        # evaluate the body in order: locals and re-assigned parameters are substituted by their normal forms
+        env = {q: RF.sym(q) for q in f.params}
+
+        def atom(e, env=env):
+            if isinstance(e, ast.Name):
+                return env.get(e.id)
+            return None
         try:
-            a, b = to_nf(r.value), to_nf(parse_expr(ref))
+            for st in f.node.body:
+                if isinstance(st, ast.Expr) and isinstance(st.value, ast.Constant):
+                    continue
+                if isinstance(st, ast.Assign) and len(st.targets) == 1 and isinstance(st.targets[0], ast.Name):
+                    env[st.targets[0].id] = to_nf(st.value, atom=atom)
+                elif isinstance(st, ast.Return):
+                    break
+                elif isinstance(st, (ast.If, ast.For, ast.While, ast.With, ast.Try)):
+                    raise NFUnsupported("control flow in %s" % name)
+            a, b = to_nf(r.value, atom=atom), to_nf(parse_expr(ref))
         except NFUnsupported as e:
             raise AnalysisError("%s outside the fragment: %s" % (name, e))
         _eq(ctx, f, r, "R-C16-9", "%s == %s" % (name, ref), a, b)
@@ -417,6 +453,28 @@ _ROP = "src/pylife/materiallaws/rambgood.py"
 
 def variants():
     out = []
+
+    def guard_ge(tree):
+        f = find_func(tree, "RambergOsgood.lower_hysteresis")
+        for n in ast.walk(f):
+            if isinstance(n, ast.Compare) and isinstance(n.ops[0], ast.Gt):
+                n.ops = [ast.GtE()]
+                return True
+        return False
+    out.append(witness("lower_hysteresis rejects stress >= max_stress", _ROP, guard_ge, "R-C16-7"))
+
+    def strain_from_stress(tree):
+        f = find_func(tree, "true_stress")
+        f.body.insert(len(f.body) - 1, parse_stmt("tech_strain = np.asarray(tech_stress)"))
+        return True
+    out.append(witness("true_stress overwrites the strain argument with the stress", TP, strain_from_stress, "R-C16-9"))
+
+    def asarray_both(tree):
+        f = find_func(tree, "true_stress")
+        f.body.insert(len(f.body) - 1, parse_stmt("tech_strain = np.asarray(tech_strain)"))
+        f.body.insert(len(f.body) - 1, parse_stmt("tech_stress = np.asarray(tech_stress)"))
+        return True
+    out.append(twin("true_stress converts both arguments with np.asarray", TP, asarray_both))
 
     def shear_in_place(tree):
         f = find_func(tree, "HookesLaw3d.stress")
